@@ -57,7 +57,7 @@ struct GMsg {
     bool useCandidate = false;
     QByteArray iceControlling, iceControlled;
     bool wf = true;        // inside WFMsg of the model (round trip expected)
-    bool strQuirk = false; // some string contains NUL or starts with a BOM
+    int strQuirk = 0;      // 1: some string contains NUL, 2: some string starts with a BOM
 };
 
 static QHostAddress toHost(const GAddr &a) {
@@ -299,8 +299,8 @@ static GMsg randOddMsg(Rng &r) {
     case 4: g.iceControlled = randBytes(r, 1 + int(r.below(12))); break;
     case 5: g.errorCode = r.coin() ? -int(r.below(30000)) : int(25600 + r.below(100000)); g.errorPhrase = randStr(r, randLen(r)); break;
     case 6: g.errorCode = 0; g.errorPhrase = randStr(r, 1 + int(r.below(9))); break;
-    case 7: { QByteArray s = randStr(r, int(r.below(8))); s += char(0); s += randStr(r, int(r.below(8))); g.username = s; g.strQuirk = true; break; }
-    default: { QByteArray s("\xEF\xBB\xBF"); s += randStr(r, int(r.below(8))); g.realm = s; g.strQuirk = true; break; }
+    case 7: { QByteArray s = randStr(r, int(r.below(8))); s += char(0); s += randStr(r, int(r.below(8))); g.username = s; g.strQuirk = 1; break; }
+    default: { QByteArray s("\xEF\xBB\xBF"); s += randStr(r, int(r.below(8))); g.realm = s; g.strQuirk = 2; break; }
     }
     return g;
 }
@@ -355,7 +355,7 @@ static void runMessage(Ctx &c, const GMsg &g, const QByteArray &key, bool fp, in
         else ofail("C14:roundtrip", rep + " decoded=" + (ok ? showMsg(d, false) : "fail"));
     } else if (g.strQuirk) {
         if (ok && showMsg(d, false) == spec) oraclePass()++;
-        else ofail("C14:roundtrip-string-nul-bom", rep + " decoded=" + (ok ? showMsg(d, false) : "fail"));
+        else ofail(g.strQuirk == 1 ? "C14:roundtrip-string-nul" : "C14:roundtrip-string-bom", rep + " decoded=" + (ok ? showMsg(d, false) : "fail"));
     }
     // decoding without a key skips the HMAC check but must give the same fields
     if (!key.isEmpty() && g.wf) {
@@ -549,6 +549,10 @@ int main(int argc, char **argv) {
             for (int i = 4; i < tok.size(); i++) if (tok[i] != 0) clean = false;
             if (clean) oraclePass()++;
             else ofail("C14:reservation-token-uninitialised", "setReservationToken(\"abc\") -> reservationToken() = " + hx(tok) + " (bytes 4..7 are whatever the heap held; valgrind: uninitialised; they are sent by encode())");
+            for (int n = 0; n <= 12; n++) {  // the setter against the model: truncated or zero padded to 8 bytes
+                QByteArray in = randBytes(rng, n); QXmppStunMessage tm; tm.setReservationToken(in);
+                corr("token " + hxArg(in), hx(tm.reservationToken()));
+            }
         }
     }
 
